@@ -632,7 +632,20 @@ def symbolic_all_any(I, it, is_all):
         if not ctx.feasible():
             # the sequence is empty on this path: all() of nothing is True, any() of nothing is False
             return SV(Z.mk_bool(bool(is_all)), TBool())
-        v = _pure_eval(I, fr, gen, seq, it.node.elt, j)
+        # the boolean operators at the TOP of the element expression (under `and` / `or` / `not` only): there truth is all that matters
+        allowed, todo = set(), [it.node.elt]
+        while todo:
+            nd = todo.pop()
+            if isinstance(nd, ast.BoolOp):
+                allowed.add(id(nd))
+                todo.extend(nd.values)
+            elif isinstance(nd, ast.UnaryOp) and isinstance(nd.op, ast.Not):
+                todo.append(nd.operand)
+        ctx.ghost["truth_only"] = allowed
+        try:
+            v = _pure_eval(I, fr, gen, seq, it.node.elt, j)
+        finally:
+            ctx.ghost.pop("truth_only", None)
         t = ctx.truth(v)
         learned = ctx.pc[len(saved_pc) + 1 :]
     finally:
